@@ -312,6 +312,10 @@ def run(chk, drv):
     chk.extra["rule_heap"] = ("stage heap: the same messages with ALIASED sub-objects (one sub-message twice in a list, under two map keys, in two fields); "
                               "copy / deepcopy / pickle; identity of every message / list / dict along all paths (`is`), random mutations through one side; "
                               "compared with the heap model (HEAPCOPY) and with 'the other side is untouched'")
+    # stage "pydict": to_pydict / from_pydict against the model (BpModel/PyDict.lean) and the round-trip oracle
+    import pydictstage
+    pydictstage.stage(chk, drv, 40 if quick else 240)
+    pydictstage.replay_witnesses(chk)
     for bi in range(nb):
         b = W.Batch(rng, "p%d" % bi, 8)
         W.count_features(chk, b)
@@ -457,6 +461,13 @@ def replay(chk, rp):
     schema = schema_from_desc(inp["schema"])
     classes = bpgen.build_bp(schema)
     v = parse_term(inp["value"].split())[0]
+    if inp.get("stage") == "pydict":
+        import pydictstage
+        import types
+        c = type(chk)(chk.pid, "quick", 0)
+        b = types.SimpleNamespace(classes=classes, schema=schema, describe=lambda: inp["schema"])
+        pydictstage.oracle(c, b, v, lambda: bpgen.to_py(v, classes), {inp["casing"]: True}, {"schema": inp["schema"], "value": inp["value"]})
+        return bool(c.oracle_failures)
     if inp.get("stage") == "heap":
         c = type(chk)(chk.pid, "quick", 0)
         heapcopy.heap_case(c, None, schema, classes, v, inp["heap_seed"], {"schema": inp["schema"], "value": inp["value"]})
